@@ -87,6 +87,8 @@ pub struct RunOutput {
     pub sim_ns: u64,
     pub sample: Value,
     pub panics: Vec<String>,
+    /// hash of the sequence of scheduling decisions that were not FIFO (0 = plain FIFO run)
+    pub sched_sig: u64,
 }
 
 pub fn addr(idx: u8) -> SocketAddr {
@@ -330,6 +332,7 @@ impl World {
             sim_ns: self.fabric.now_ns(),
             sample: Value::Object(sample),
             panics: Vec::new(),
+            sched_sig: 0,
         }
     }
 }
